@@ -45,6 +45,7 @@ From Coq Require Import PrimFloat.
 From Coq Require Import ZArith List Bool Reals Lra Permutation Sorted.
 From BZ Require Import Base.Ops Gen.Point Gen.BBox Gen.Line Gen.Quad Gen.Cubic Hand.Bounds Hand.CurveCurve Proofs.C02 Proofs.C06 Proofs.C06sym.
 Import ListNotations.
+From BZ Require Proofs.Transfer4.
 From BZ Require Gen.Sample Gen.CurveCurve Proofs.Bridge4.
 Open Scope R_scope.
 
@@ -216,6 +217,18 @@ Proof. exact @Bridge4.cc_t_CC_gen_float. Qed.
 Theorem C06_intersections_CC_gen_float :
   forall (fuel : nat) (a b : seg4 float) (limited : bool), Bridge4.result_of (CurveCurve.Cubic_intersections_Cubic FOps key2F keyF_eqb fuel a b limited) = intersections FOps key2F keyF_eqb fuel (SCubic a) (SCubic b) limited.
 Proof. exact @Bridge4.intersections_CC_gen_float. Qed.
+Theorem C06_gen_cc_t_QQ_outcomes :
+  forall (K : Type) (key2 : R -> K) (keq : K -> K -> bool) (fuel : nat) (a b : seg3 R) (lo hi lo' hi' : R), (lo < hi)%R -> (lo' < hi')%R -> Transfer4.value_or_fuel (CurveCurve.Quad__curve_curve_intersections_t_Quad ROps key2 keq fuel {| CurveCurve.rg_seg := a; CurveCurve.rg_lo := lo; CurveCurve.rg_hi := hi |} {| CurveCurve.rg_seg := b; CurveCurve.rg_lo := lo'; CurveCurve.rg_hi := hi' |}).
+Proof. exact @Transfer4.gen_cc_t_QQ_outcomes. Qed.
+Theorem C06_gen_cc_t_QC_outcomes :
+  forall (K : Type) (key2 : R -> K) (keq : K -> K -> bool) (fuel : nat) (a : seg3 R) (b : seg4 R) (lo hi lo' hi' : R), (lo < hi)%R -> (lo' < hi')%R -> Transfer4.value_or_fuel (CurveCurve.Quad__curve_curve_intersections_t_Cubic ROps key2 keq fuel {| CurveCurve.rg_seg := a; CurveCurve.rg_lo := lo; CurveCurve.rg_hi := hi |} {| CurveCurve.rg_seg := b; CurveCurve.rg_lo := lo'; CurveCurve.rg_hi := hi' |}).
+Proof. exact @Transfer4.gen_cc_t_QC_outcomes. Qed.
+Theorem C06_gen_cc_t_CQ_outcomes :
+  forall (K : Type) (key2 : R -> K) (keq : K -> K -> bool) (fuel : nat) (a : seg4 R) (b : seg3 R) (lo hi lo' hi' : R), (lo < hi)%R -> (lo' < hi')%R -> Transfer4.value_or_fuel (CurveCurve.Cubic__curve_curve_intersections_t_Quad ROps key2 keq fuel {| CurveCurve.rg_seg := a; CurveCurve.rg_lo := lo; CurveCurve.rg_hi := hi |} {| CurveCurve.rg_seg := b; CurveCurve.rg_lo := lo'; CurveCurve.rg_hi := hi' |}).
+Proof. exact @Transfer4.gen_cc_t_CQ_outcomes. Qed.
+Theorem C06_gen_cc_t_CC_outcomes :
+  forall (K : Type) (key2 : R -> K) (keq : K -> K -> bool) (fuel : nat) (a b : seg4 R) (lo hi lo' hi' : R), (lo < hi)%R -> (lo' < hi')%R -> Transfer4.value_or_fuel (CurveCurve.Cubic__curve_curve_intersections_t_Cubic ROps key2 keq fuel {| CurveCurve.rg_seg := a; CurveCurve.rg_lo := lo; CurveCurve.rg_hi := hi |} {| CurveCurve.rg_seg := b; CurveCurve.rg_lo := lo'; CurveCurve.rg_hi := hi' |}).
+Proof. exact @Transfer4.gen_cc_t_CC_outcomes. Qed.
 
 Print Assumptions C06_range_invariant.
 Print Assumptions C06_repr_whole.
@@ -273,3 +286,7 @@ Print Assumptions C06_intersections_CC_gen_sym.
 Print Assumptions C06_keyF_eqb_sym.
 Print Assumptions C06_cc_t_CC_gen_float.
 Print Assumptions C06_intersections_CC_gen_float.
+Print Assumptions C06_gen_cc_t_QQ_outcomes.
+Print Assumptions C06_gen_cc_t_QC_outcomes.
+Print Assumptions C06_gen_cc_t_CQ_outcomes.
+Print Assumptions C06_gen_cc_t_CC_outcomes.
